@@ -98,6 +98,29 @@ def run(ctx, replay):
         sizes = {os.path.getsize(f) for f in files}
         if len(sizes) > 1 or 0 in sizes:
             ctx.violate("tempfile", "saved-file-overwritten", "saved copies differ in size: %s" % sorted(sizes), {"files": files})
+        # names that are already taken - by a file another process just created, or by an entry a plain stat cannot
+        # see (a dangling symbolic link) - must be left alone: the new file gets the next free name
+        first = sorted(saved)[0]
+        stem = re.sub(r"\.\d{3}\.pb\.gz$", "", first)
+        if stem != first:
+            for f in glob.glob(os.path.join(tmpdir, "*")):
+                os.remove(f)
+            outside = os.path.join(ctx.scratch, "symlink-target-must-not-appear")
+            if os.path.exists(outside):
+                os.remove(outside)
+            os.symlink(outside, stem + ".001.pb.gz")
+            with open(stem + ".002.pb.gz", "w") as f:
+                f.write("precious")
+            p1 = subprocess.run([pprof, "-top", "-symbolize=none", "http://127.0.0.1:%d/pprof/profile" % port], env=ctx.env, capture_output=True, timeout=120)
+            m = re.search(r"Saved profile in (\S+)", p1.stderr.decode(errors="replace"))
+            got = m.group(1) if m else None
+            ctx.extra_cov["taken_names_probe"] = got
+            if os.path.exists(outside) or os.path.lexists(stem + ".001.pb.gz") and not os.path.islink(stem + ".001.pb.gz"):
+                ctx.violate("tempfile", "existing-entry-claimed:symlink", "a dangling symbolic link at the first candidate name was followed or replaced (saved in %s)" % got, {"saved": got})
+            if open(stem + ".002.pb.gz").read() != "precious":
+                ctx.violate("tempfile", "existing-entry-claimed:file", "an existing file at a candidate name was overwritten (saved in %s)" % got, {"saved": got})
+            if p1.returncode == 0 and got in (stem + ".001.pb.gz", stem + ".002.pb.gz"):
+                ctx.violate("tempfile", "existing-entry-claimed:name", "the profile was saved under a name that was already taken: %s" % got, {"saved": got})
     finally:
         srv.shutdown()
     return ctx.finish(
